@@ -11,7 +11,7 @@ pub fn cfg_line(cfg: &Cfg) -> String {
         Cfg::Adaptive { cap, min_ns, max_ns, max_ops } => {
             format!("cfg adaptive {cap} {min_ns} {max_ns} {max_ops}")
         }
-        Cfg::Prob { cap, modulus } => format!("cfg prob {cap} {modulus}"),
+        Cfg::Prob { cap, modulus, ops } => format!("cfg prob {cap} {modulus} {ops}"),
     }
 }
 
@@ -25,7 +25,8 @@ pub fn parse_cfg(line: &str) -> Option<Cfg> {
             max_ns: mx.parse().ok()?,
             max_ops: mo.parse().ok()?,
         }),
-        ["cfg", "prob", cap, m] => Some(Cfg::Prob { cap: cap.parse().ok()?, modulus: m.parse().ok()? }),
+        ["cfg", "prob", cap, m] => Some(Cfg::Prob { cap: cap.parse().ok()?, modulus: m.parse().ok()?, ops: 0 }),
+        ["cfg", "prob", cap, m, ops] => Some(Cfg::Prob { cap: cap.parse().ok()?, modulus: m.parse().ok()?, ops: ops.parse().ok()? }),
         _ => None,
     }
 }
